@@ -103,11 +103,23 @@ func (w *World) buildKernel(pkg string, fn *ssa.Function) *neotest.Contract {
 		return p.Name()
 	}
 	sig := fn.Signature
-	var params, names []string
+	// A []byte parameter of an exported method arrives as an immutable ByteString; inside a contract every
+	// caller passes a Buffer (x.([]byte) and slicing convert), and kernels may write into it
+	// (container.counterFromBytes swaps the two bytes in place). The wrapper hands over a Buffer copy.
+	var params, names, prologue []string
 	for i := 0; i < sig.Params().Len(); i++ {
 		n := fmt.Sprintf("a%d", i)
+		pt := sig.Params().At(i).Type()
+		if sl, ok := pt.(*types.Slice); ok {
+			if bt, ok := sl.Elem().(*types.Basic); ok && bt.Kind() == types.Uint8 {
+				prologue = append(prologue, fmt.Sprintf("b%d := append([]byte{}, %s...)", i, n))
+				names = append(names, fmt.Sprintf("b%d", i))
+				params = append(params, n+" "+types.TypeString(pt, qual))
+				continue
+			}
+		}
 		names = append(names, n)
-		params = append(params, n+" "+types.TypeString(sig.Params().At(i).Type(), qual))
+		params = append(params, n+" "+types.TypeString(pt, qual))
 	}
 	ret, call := "", fn.Name()+"("+strings.Join(names, ", ")+")"
 	switch sig.Results().Len() {
@@ -124,7 +136,7 @@ func (w *World) buildKernel(pkg string, fn *ssa.Function) *neotest.Contract {
 	}
 	sort.Strings(imp)
 	wrapper := fmt.Sprintf("package %s\n\n%s\n\n// ZzKernel exposes the kernel under test.\nfunc ZzKernel(%s) %s {\n\t%s\n}\n",
-		pkgName, strings.Join(imp, "\n"), strings.Join(params, ", "), ret, call)
+		pkgName, strings.Join(imp, "\n"), strings.Join(params, ", "), ret, strings.Join(append(prologue, call), "\n\t"))
 	os.WriteFile(filepath.Join(dir, "zz_kernel.go"), []byte(wrapper), 0644)
 	return neotest.CompileFile(w.t, w.validator.ScriptHash(), dir, filepath.Join(dir, "config.yml"))
 }
